@@ -5,7 +5,7 @@ let bytes_of_hex h =
   let n = Stdlib.String.length h / 2 in
   Stdlib.List.init n (fun i -> n_of_int (16 * hexv h.[2*i] + hexv h.[2*i+1]))
 let fault_name = function FStr -> "str-oob" | FLit -> "literal-oob" | FLevel -> "level-oob" | FLoops -> "loops-oob"
-  | FUninit -> "uninit-arity" | FDiv -> "div-zero" | FAssert -> "assert" | FFuel -> "hang"
+  | FUninit -> "uninit-arity" | FDiv -> "div-zero" | FAssert -> "assert" | FFuel -> "fuel" | FHang -> "hang"
 let variant = ref cur
 let max_objs = 60000
 let () =
